@@ -511,3 +511,350 @@ def pipe_replay(ctx, rep, pid):
         if len(samples) < 2:
             samples.append({"spec": sp, "n_steps": len(steps), "n_calls": len(calls), "first_steps": [{k: v for k, v in s.items() if not k.startswith("_") and k not in ("U", "logX")} for s in steps[:4]]})
     return stats, samples
+
+
+# ------------------------------------------------------------------------------------------------
+# C05 / C19 : incumbent / history / final-estimate bookkeeping through Noisy.iterStep
+
+def _finite(*vals):
+    import math as _m
+    for v in vals:
+        if v is None or isinstance(v, (list, str)) or not _m.isfinite(v):
+            return False
+    return True
+
+
+def noisy_extract(t):
+    """Oracle inputs per loop iteration + observed states. None if the run has non-finite estimates or no loop."""
+    ev = t["events"]
+    groups, cur = [], None
+    for k, e in ev:
+        if k == "ITER":
+            cur = {"start": e, "ev": []}
+            groups.append(cur)
+        elif cur is not None:
+            cur["ev"].append((k, e))
+    if t["error"] is not None and groups:
+        groups = groups[:-1]
+    if not groups:
+        return None
+    s0 = groups[0]["start"]
+    if not _finite(s0["yval"], s0["fval"], s0["fsd"]):
+        return None
+    init = {"u": enc_pt(s0["u"]), "yval": enc(s0["yval"]), "fval": enc(s0["fval"]), "fsd": enc(s0["fsd"])}
+    iters, obs = [], []
+    ohist = {"u": {}, "yval": {}, "fval": {}, "fsd": {}, "x": {}, "func_count": {}, "mesh_size": {}, "search_mesh_size": {}}
+    recorded = []       # (it, u, x, yval, fval, fsd, func_count) at loop-end record time
+    unc = t["final"]["unc"]
+    for gi, g in enumerate(groups):
+        last = gi == len(groups) - 1
+        it = {"it": g["start"]["it"], "finished": bool(last and t["error"] is None)}
+        calls_s, calls_p = [], []
+        srch = poll = None
+        reeval = None
+        rec_now = {}
+        for k, e in g["ev"]:
+            if k == "CALL" and "exc" not in e:
+                if e["phase"] == "search":
+                    calls_s.append(e)
+                elif e["phase"] == "poll":
+                    calls_p.append(e)
+            elif k == "SRCH":
+                srch = e
+            elif k == "POLL":
+                poll = e
+            elif k == "HIST":
+                if e["phase"] == "reeval":
+                    if reeval is not None:
+                        reeval.setdefault(e["key"], {})[e["it"]] = e["val"]
+                    ohist[e["key"]][e["it"]] = e["val"]
+                elif e["phase"] == "pre":
+                    ohist[e["key"]][e["it"]] = e["val"]
+                    rec_now[e["key"]] = e["val"]
+            elif k == "REEVAL":
+                g["ohist_at_reeval"] = {kk: dict(vv) for kk, vv in ohist.items()}
+        # REEVAL events mark the end of a re-evaluation; HIST(reeval) precede them: collect them now
+        re_idx = [i for i, (k, e) in enumerate(g["ev"]) if k == "REEVAL"]
+        if srch is not None:
+            if calls_s:
+                c = calls_s[0]
+                if not _finite(srch["f_mu"], srch["f_sd"], c["ret"][0]):
+                    return None
+                it["search"] = {"u": enc_pt(c["u"]), "y": enc(c["ret"][0]), "f": enc(srch["f_mu"]), "sd": enc(srch["f_sd"])}
+            else:
+                it["search"] = None
+        if poll is not None:
+            eis = [x for x in poll["ei"] if x["phase"] == "poll"]
+            cs = []
+            for c, x in zip(calls_p, eis):
+                if not _finite(x["f_new"], x["s_new"], c["ret"][0]):
+                    return None
+                cs.append({"u": enc_pt(c["u"]), "y": enc(c["ret"][0]), "f": enc(x["f_new"]), "sd": enc(x["s_new"])})
+            it["poll"] = cs
+        if re_idx and not last or (re_idx and last and poll is not None and g["start"]["it"] > 0 and unc > 0 and _reeval_in_loop(g["ev"], re_idx[0])):
+            vals = _reeval_vals(g["ev"], re_idx[0])
+            if vals is None:
+                return None
+            it["reVals"] = vals
+        iters.append(it)
+        if "u" in rec_now:
+            recorded.append({"it": g["start"]["it"], **rec_now})
+        nxt = groups[gi + 1]["start"] if not last else None
+        obs.append(nxt)
+    # final block
+    final = None
+    if t["error"] is None:
+        lastg = groups[-1]
+        re_idx = [i for i, (k, e) in enumerate(lastg["ev"]) if k == "REEVAL"]
+        tail = [e for k, e in lastg["ev"] if k == "CALL" and e["phase"] == "pre" and not e["rec"]]
+        final = {"samples": [enc(e["ret"][0]) for e in tail], "_tail": tail}
+        if unc > 0 and t["final"]["iter"] > 0 and re_idx:
+            vals = _reeval_vals(lastg["ev"], re_idx[-1])
+            if vals is None:
+                return None
+            from scipy.special import erfcinv
+            import numpy as np
+            sm = np.sqrt(2) * erfcinv(2 * t["hdr"]["opts"]["final_quantile"])
+            n = t["final"]["iter"] + 1
+            oh = lastg.get("ohist_at_reeval", ohist)
+            try:
+                fv = np.array([oh["fval"][i] for i in range(n)], dtype=float)
+                fs = np.array([oh["fsd"][i] for i in range(n)], dtype=float)
+            except (KeyError, TypeError):
+                return None
+            q = fv + sm * fs
+            if not np.all(np.isfinite(q)):
+                return None
+            final["select"] = {"reVals": vals, "qs": [enc(v) for v in q]}
+    return {"init": init, "iters": iters, "obs": obs, "final": final, "recorded": recorded, "ohist": ohist, "tolFun": enc(s0["tol_fun"])}
+
+
+def _reeval_in_loop(evs, idx):
+    # a REEVAL inside the loop body is followed by the vector-valued improvement computation
+    return any(k == "EI" and e["vec"] for k, e in evs[idx:])
+
+
+def _reeval_vals(evs, idx):
+    """(fval, fsd) per history index written by the re-evaluation that ended at evs[idx]."""
+    fv, fs = {}, {}
+    j = idx - 1
+    while j >= 0 and evs[j][0] in ("HIST", "NEIGH", "LOCALFIT", "FIT", "ACQ", "GPADD"):
+        k, e = evs[j]
+        if k == "HIST" and e["phase"] == "reeval":
+            (fv if e["key"] == "fval" else fs)[e["it"]] = e["val"]
+        elif k == "HIST":
+            break
+        j -= 1
+    if not fv:
+        return []
+    n = max(fv) + 1
+    out = []
+    for i in range(n):
+        if i not in fv or i not in fs or not _finite(fv[i], fs[i]):
+            return None
+        out.append([enc(fv[i]), enc(fs[i])])
+    return out
+
+
+def noisy_replay(ctx, rep, pid):
+    traces = get_pool(ctx)
+    items = []
+    skipped = 0
+    for t in traces:
+        if not t["constructed"] or not any(k == "ITER" for k, _ in t["events"]):
+            continue
+        x = noisy_extract(t)
+        if x is None:
+            skipped += 1
+            continue
+        items.append((t, x))
+    reqs = []
+    for t, x in items:
+        r = {"cmd": "noisy.run", "tolFun": x["tolFun"], "init": x["init"], "iters": x["iters"]}
+        if x["final"] is not None:
+            r["final"] = {k: v for k, v in x["final"].items() if not k.startswith("_")}
+        reqs.append(r)
+    res = ctx.driver.call_many(reqs)
+    stats = {"runs": 0, "iterations": 0, "moves": 0, "swaps": 0, "reevals": 0, "final_selects": 0, "skipped_nonfinite": skipped,
+             "by_mode": {}, "nfs": {}}
+    samples = []
+    for (t, x), r in zip(items, res):
+        sp = t["spec"]
+        tag = spec_tag(sp)
+        case = {"kind": "noisy_run", "spec": sp}
+        stats["runs"] += 1
+        stats["by_mode"][sp["mode"]] = stats["by_mode"].get(sp["mode"], 0) + 1
+        ok = True
+        prev_u = x["init"]["u"]
+        for k, (st, ob, it) in enumerate(zip(r["states"], x["obs"], x["iters"])):
+            stats["iterations"] += 1
+            stats["reevals"] += "reVals" in it
+            if st["u"] != prev_u:
+                stats["moves"] += 1
+            prev_u = st["u"]
+            if ob is None:
+                continue
+            mod = (st["u"], st["uBest"], st["yval"], st["fval"], st["fsd"])
+            obv = (enc_pt(ob["u"]), enc_pt(ob["u_best"]), enc(ob["yval"]), enc(ob["fval"]), enc(ob["fsd"]))
+            if mod != obv:
+                rep.disagree("Noisy.iterStep ~ optimize loop incumbent/history bookkeeping",
+                             f"iteration {k}: model (u,u_best,yval,fval,fsd)={mod} observed {obv}; {tag}", case)
+                ok = False
+                break
+        if ok and t["error"] is None and r["final"] is not None:
+            f = r["final"]
+            stats["final_selects"] += x["final"].get("select") is not None
+            fin = t["final"]
+            if f["state"]["u"] != enc_pt(fin["u"]):
+                rep.disagree("Noisy.finalChoice ~ final selection", f"model returns u={f['state']['u']} run u={fin['u']}; {tag}", case)
+            elif x["final"]["samples"]:
+                import numpy as np
+                yv = [float(v) for v in np.asarray(fin["yval_vec"], dtype=float).reshape(-1)] if fin["yval_vec"] is not None else []
+                if [enc(v) for v in yv] != f["yvec"]:
+                    rep.disagree("Noisy.yvalVec ~ yval_vec", f"model {f['yvec']} run {yv}; {tag}", case)
+                else:
+                    from fractions import Fraction
+                    m = float(Fraction(f["mean"]))
+                    n = len(yv)
+                    sem = (float(Fraction(f["sqdev"])) ** 0.5) / n
+                    if abs(m - fin["fval"]) > 1e-12 * max(1, abs(m)) or abs(sem - fin["fsd"]) > 1e-12 * max(1, abs(sem)):
+                        rep.disagree("Noisy.meanOf/sqDev ~ final fval/fsd", f"model mean={m} sem={sem} run fval={fin['fval']} fsd={fin['fsd']}; {tag}", case)
+        nfs = t["final"].get("nfs")
+        stats["nfs"][str(nfs)] = stats["nfs"].get(str(nfs), 0) + 1
+        if pid == "C05":
+            _c05_predicates(rep, t, x, case, tag)
+        elif pid == "C19":
+            _c19_predicates(rep, t, x, case, tag)
+        if len(samples) < 2 and sp["mode"] != "det":
+            samples.append({"spec": sp, "init": x["init"], "iters": x["iters"][:2], "final": {k: v for k, v in (x["final"] or {}).items() if not k.startswith("_")}})
+    return stats, samples
+
+
+def _calls(t):
+    return [e for k, e in t["events"] if k == "CALL" and "exc" not in e]
+
+
+def _c05_predicates(rep, t, x, case, tag):
+    import numpy as np
+    sp = t["spec"]
+    if t["error"] is not None:
+        return
+    fin, res = t["final"], t["result"]
+    calls = _calls(t)
+    noisy = fin["unc"] > 0
+    # noise detection rule
+    c0 = calls[0]
+    if sp["mode"] in ("det", "auto") and len(calls) > 1 and calls[1]["phase"] == "init" and not calls[1]["rec"]:
+        y1, y2 = calls[0]["ret"][0], calls[1]["ret"][0]
+        want = abs(y1 - y2) > t["hdr"]["opts"]["tol_noise"]
+        if want != noisy:
+            rep.violation("noise_detection", "bads.py:_init_mesh_", f"|y1-y2|={abs(y1 - y2)} tol_noise={t['hdr']['opts']['tol_noise']} but target treated as {'stochastic' if noisy else 'deterministic'}; {tag}", case)
+    if not noisy:
+        return
+    if "stochastic" not in str(res["target_type"]):
+        rep.violation("target_type", "optimize_result.py", f"target_type={res['target_type']} for a stochastic target; {tag}", case)
+    nfs = int(fin["nfs"])
+    tail = x["final"]["_tail"] if x["final"] else []
+    xres = res["x"] if isinstance(res["x"], list) else [res["x"]]
+    body = calls[: len(calls) - len(tail)]
+    if not any(c["x"] == xres for c in body):
+        rep.violation("x_evaluated_earlier", "bads.py:final selection", f"returned x was not evaluated earlier in the run; {tag}", case)
+    if nfs > 0:
+        if len(tail) != nfs or any(c["x"] != xres or c["rec"] for c in tail):
+            rep.violation("final_calls_at_x", "bads.py:final re-sampling", f"the last {nfs} target calls are not unrecorded calls at the returned x ({len(tail)} trailing unrecorded calls); {tag}", case)
+            return
+        yv = list(np.asarray(fin["yval_vec"], dtype=float).reshape(-1)) if fin["yval_vec"] is not None else None
+        fresh = [c["ret"][0] for c in tail]
+        if yv is None or yv[: len(fresh)] != fresh:
+            rep.violation("yval_vec", "bads.py:final re-sampling", f"yval_vec {yv} does not consist of the fresh observations {fresh}; {tag}", case)
+            return
+        if nfs == 1:
+            earlier = [c["ret"][0] for c in body if c["x"] == xres]
+            if len(yv) != 2 or yv[1] not in earlier:
+                rep.violation("yval_vec_supplement", "bads.py:final re-sampling", f"single final sample not supplemented by an earlier observation at x: yval_vec={yv}, earlier={earlier[:4]}; {tag}", case)
+                return
+        elif len(yv) != nfs:
+            rep.violation("yval_vec", "bads.py:final re-sampling", f"yval_vec has {len(yv)} entries for noise_final_samples={nfs}; {tag}", case)
+            return
+        m = float(np.mean(yv)); sem = float(np.std(yv) / np.sqrt(len(yv)))
+        if abs(res["fval"] - m) > 1e-12 * max(1, abs(m)) or abs(res["fsd"] - sem) > 1e-12 * max(1, abs(sem)):
+            rep.violation("fval_mean_fsd_sem", "bads.py:final re-sampling", f"fval={res['fval']} fsd={res['fsd']} but mean/SEM of yval_vec = {m}/{sem}; {tag}", case)
+        if sp["mode"] == "he":
+            ysd = list(np.asarray(fin["ysd_vec"], dtype=float).reshape(-1)) if fin["ysd_vec"] is not None else None
+            rsd = [c["ret"][1] for c in tail]
+            if ysd is None or ysd[: len(rsd)] != rsd:
+                rep.violation("ysd_vec", "bads.py:final re-sampling", f"ysd_vec {ysd} does not hold the SDs the target reported {rsd}; {tag}", case)
+            elif nfs == 1:
+                lg = t["log"]
+                rows = [i for i, Xo in enumerate(lg["X_orig"]) if Xo == xres]
+                sds_at_x = [lg["S"][i] for i in rows]
+                if len(ysd) != 2 or ysd[1] not in sds_at_x:
+                    rep.violation("ysd_vec_supplement", "bads.py:final re-sampling (nfs=1, specified noise)",
+                                  f"second entry of ysd_vec ({ysd[1] if len(ysd) > 1 else None}) is not the SD logged for the returned point ({sds_at_x}); {tag}", case)
+    else:
+        if res["yval_vec"] is not None:
+            rep.violation("yval_vec", "optimize_result.py", f"yval_vec present although noise_final_samples=0; {tag}", case)
+
+
+def _c19_predicates(rep, t, x, case, tag):
+    import numpy as np
+    sp = t["spec"]
+    calls = _calls(t)
+    he = sp["mode"] == "he"
+    by_x = {}
+    for c in calls:
+        by_x.setdefault(tuple(c["x"]), []).append(c)
+    raw = t["final"]["xs"]
+    # raw target observations per x (for specified noise the logged value is a precision-weighted mean)
+    hx = [(e["it"], e["val"]) for k, e in t["events"] if k == "HIST" and e["key"] == "x" and e["phase"] == "pre"]
+    hy = {e["it"]: e["val"] for k, e in t["events"] if k == "HIST" and e["key"] == "yval" and e["phase"] == "pre"}
+    hfc = [(e["it"], e["val"]) for k, e in t["events"] if k == "HIST" and e["key"] == "func_count"]
+    for it, xv in hx:
+        xv = xv if isinstance(xv, list) else [xv]
+        cs = by_x.get(tuple(xv))
+        if not cs:
+            rep.violation("hist_x_evaluated", "bads.py:iteration history", f"iteration {it}: recorded x was never evaluated; {tag}", case)
+            return
+        yv = hy.get(it)
+        vals = [c["ret"][0] for c in cs]
+        if yv is None:
+            continue
+        if he:
+            raws = [c.get("raw_y", c["ret"][0]) for c in cs]
+            lo, hi = min(vals + raws), max(vals + raws)
+            if not (lo - 1e-12 * max(1, abs(lo)) <= yv <= hi + 1e-12 * max(1, abs(hi))):
+                rep.violation("hist_yval_observed", "bads.py:noisy incumbent bookkeeping", f"iteration {it}: recorded yval={yv} is outside the range of the observations at the recorded x {sorted(set(vals))[:4]}; {tag}", case)
+                return
+        elif yv not in vals:
+            rep.violation("hist_yval_observed", "bads.py:noisy incumbent bookkeeping", f"iteration {it}: recorded yval={yv} was never observed at the recorded x (observed there: {sorted(set(vals))[:4]}); {tag}", case)
+            return
+    fcs = [v for _, v in sorted(hfc, key=lambda p: p[0])]
+    if any(b < a for a, b in zip(fcs, fcs[1:])):
+        rep.violation("hist_fc_monotone", "bads.py:iteration history", f"recorded func_count decreases: {fcs}; {tag}", case)
+    if t["error"] is None:
+        res = t["result"]
+        if fcs and fcs[-1] > res["func_count"]:
+            rep.violation("hist_fc_le_final", "bads.py:iteration history", f"recorded func_count {fcs[-1]} exceeds the final count {res['func_count']}; {tag}", case)
+        xres = res["x"] if isinstance(res["x"], list) else [res["x"]]
+        its = [xv if isinstance(xv, list) else [xv] for _, xv in hx]
+        if its and xres not in its:
+            rep.violation("result_x_is_iterate", "bads.py:final selection", f"returned x is not one of the recorded iterates; {tag}", case)
+        if t["final"]["unc"] == 0 and its:
+            last_it = max(i for i, _ in hx)
+            xl = [xv for i, xv in hx if i == last_it][-1]
+            xl = xl if isinstance(xl, list) else [xl]
+            if xl != xres or hy.get(last_it) != res["fval"]:
+                rep.violation("det_result_is_last_iterate", "bads.py:optimize result", f"deterministic run: returned (x, fval) differs from the last recorded iterate; {tag}", case)
+        # result fields vs problem and final state
+        fin = t["final"]
+        exp_keys = ["algorithm", "fsd", "fun", "func_count", "fval", "iterations", "mesh_size", "message", "non_box_cons", "overhead", "problem_type",
+                    "random_seed", "status", "success", "target_type", "total_time", "version", "x", "x0", "yval_vec", "ysd_vec"]
+        got = res["keys"]
+        if not set(got) <= set(exp_keys):
+            rep.violation("result_keys", "optimize_result.py", f"unexpected result fields {sorted(set(got) - set(exp_keys))}; {tag}", case)
+        x0 = res["x0"] if isinstance(res["x0"], list) else [res["x0"]]
+        if x0 != t["hdr"]["x0"] or res["random_seed"] != sp["seed"] or res["func_count"] != fin["target_calls"] or res["mesh_size"] != fin["mesh_size"]:
+            rep.violation("result_fields", "optimize_result.py", f"x0/random_seed/func_count/mesh_size disagree with the problem and the final state; {tag}", case)
+        want_pt = "non-box constraints" if sp["cons"] else ("unconstrained" if sp["geom"] == "unbounded" else "bound constraints")
+        if res["problem_type"] != want_pt:
+            rep.violation("result_fields", "optimize_result.py", f"problem_type={res['problem_type']} expected {want_pt}; {tag}", case)
